@@ -4,6 +4,7 @@ package main
 
 import (
 	"context"
+	"encoding/binary"
 	"fmt"
 	"strings"
 	"sync"
@@ -20,6 +21,7 @@ import (
 type Op struct {
 	// store | revert | query | snap | restart | prune (n = oldest block kept)
 	// storefail / revertfail: the batch commit of the Store / RevertHead fails (injected)
+	// restartcore: restart as a node without --prune-mode (blockchain.New's default initialiser)
 	// restartfault: restart whose lazy initialisation hits a transient read error
 	// restartcrash: the process dies inside the initialiser before (n = 0) / after (n = 1) its window write
 	// prunecrash: pruner.PruneUpto(n) with tiny batches whose j-th commit fails
@@ -60,6 +62,9 @@ type Variant struct {
 	// InitRetry: a failed lazy initialisation is NOT remembered for event queries (the repair of
 	// C05's L16, not in the tree yet): the harness then re-arms the model after the failing access.
 	InitRetry bool
+	// DefaultInitFloorAware: a Blockchain built WITHOUT an initialiser option copes with a pruned
+	// database (the repair of the second open finding): the model then restarts floor-aware.
+	DefaultInitFloorAware bool
 }
 
 func b2s(b bool) string {
@@ -72,23 +77,27 @@ func b2s(b bool) string {
 // World runs a history on the real node, on the abstract chain (the property's oracle) and on the
 // Lean model.
 type World struct {
-	Src      *Source
-	Node     *Node
-	Chain    []Plan        // abstract canonical chain: events per block
-	Bundles  []*lib.Bundle // the blocks of the canonical chain as stored (for tag checks)
-	Drv      *lib.Driver
-	Res      *lib.Result
-	Name     string
-	Hist     []Op
-	Floor    int  // oldest retained block (0 = nothing pruned)
-	Faulted  bool // a lazy initialisation failed (injected) and no write / restart has re-armed it since
-	Tampered bool // the database was corrupted on purpose: errors are expected, correspondence only
-	V        Variant
-	wires    map[int]*wireServer
-	preFirst int // number of the first pre-confirmed block the running query may be served from; -1: none
-	drvDead  bool
-	pool     *DrvPool
-	quiet    bool // no correspondence, oracle only
+	Src     *Source
+	Node    *Node
+	Chain   []Plan        // abstract canonical chain: events per block
+	Bundles []*lib.Bundle // the blocks of the canonical chain as stored (for tag checks)
+	Drv     *lib.Driver
+	Res     *lib.Result
+	Name    string
+	Hist    []Op
+	Floor   int // oldest retained block (0 = nothing pruned)
+	// CoreOnPruned: the node was re-opened without --prune-mode on a database pruned before
+	CoreOnPruned bool
+	prunerWas    bool
+	Pruned       bool // a prune ran in this history (the floor can fall back to 0 after a reorg below it)
+	Faulted      bool // a lazy initialisation failed (injected) and no write / restart has re-armed it since
+	Tampered     bool // the database was corrupted on purpose: errors are expected, correspondence only
+	V            Variant
+	wires        map[int]*wireServer
+	preFirst     int // number of the first pre-confirmed block the running query may be served from; -1: none
+	drvDead      bool
+	pool         *DrvPool
+	quiet        bool // no correspondence, oracle only
 }
 
 func (w *World) ask(line string) string {
@@ -289,6 +298,73 @@ func (w *World) checkState(after string) {
 	w.compare("persisted-state-after-"+after, w.Node.persistedState(), d[:i])
 }
 
+// checkContents compares what the index keeps on disk (every persisted window and the snapshot)
+// with the header blooms of the canonical chain, item by item over the universe: each retained block
+// whose header bloom holds an item has its column set for that item; on a node that never pruned the
+// columns hold nothing else (the windows are exactly the blooms of their blocks).
+func (w *World) checkContents() {
+	if w.Tampered || w.Node == nil || !(w.V.FixCache && w.V.FixSnap && w.V.FixPersist) {
+		return
+	}
+	head := len(w.Chain) - 1
+	exact := w.Floor == 0 && !w.Pruned
+	check := func(what string, flt *core.AggregatedBloomFilter, upto int) {
+		from, to := int(flt.FromBlock()), int(flt.ToBlock())
+		for _, it := range allItems {
+			got := flt.BlocksForKeys([][]byte{it.bytes()})
+			wanted := uint(0)
+			for b := from; b <= to && b <= upto && b < len(w.Bundles); b++ {
+				bf := w.Bundles[b].Block.EventsBloom
+				if bf == nil || !bf.Test(it.bytes()) {
+					continue
+				}
+				wanted++
+				if b >= w.Floor && !got.Test(uint(b-from)) {
+					w.Res.Violate(lib.Violation{Sig: "index-on-disk-misses-block-bloom",
+						What:   fmt.Sprintf("%s: %s [%d,%d] has no bit for item %v in the column of block %d", w.Name, what, from, to, it, b),
+						Replay: w.replay()})
+					return
+				}
+			}
+			if exact && got.Count() != wanted {
+				w.Res.Violate(lib.Violation{Sig: "index-on-disk-holds-foreign-bits",
+					What:   fmt.Sprintf("%s: %s [%d,%d] has %d columns set for item %v, the chain has %d such blocks there", w.Name, what, from, to, got.Count(), it, wanted),
+					Replay: w.replay()})
+				return
+			}
+		}
+		w.Res.Hit("contents-checked:" + what)
+	}
+	it, err := w.Node.DB.NewIterator(db.AggregatedBloomFilters.Key(), true)
+	if err != nil {
+		w.Res.Fatalf("iterating the persisted windows: %v", err)
+		return
+	}
+	var froms []uint64
+	for ok := it.First(); ok; ok = it.Next() {
+		k := it.Key()[len(db.AggregatedBloomFilters.Key()):]
+		if len(k) >= 16 {
+			froms = append(froms, binary.BigEndian.Uint64(k[:8]))
+		}
+	}
+	it.Close()
+	for _, f := range froms {
+		flt, err := core.GetAggregatedBloomFilter(w.Node.DB, f, f+uint64(W)-1)
+		if err != nil {
+			w.Res.Fatalf("reading persisted window %d: %v", f, err)
+			continue
+		}
+		check("persisted-window", &flt, head)
+	}
+	if rf, err := core.GetRunningEventFilter(w.Node.DB); err == nil {
+		inner, _ := rf.InnerFilter()
+		nx, _ := rf.NextBlock()
+		if inner != nil {
+			check("snapshot", inner, int(nx)-1)
+		}
+	}
+}
+
 // checkTag compares a returned event with the stored block: hashes and payload.
 func (w *World) checkTag(fe blockchain.FilteredEvent, pre []*pending.PreConfirmed) string {
 	b := int(fe.BlockNumber)
@@ -385,6 +461,18 @@ func (w *World) runQuery(q Q) {
 	agree := true
 	fail := ""
 	rep := func() map[string]any { return map[string]any{"history": w.replay(), "query": q} }
+	// every page returns an event or moves the token to a later block: a paging that is longer than
+	// (events + blocks) of the range does not terminate (no generated block has more than 16 events)
+	pageBound := maxPages
+	if end := min(toB, uint64(head+len(pre))); true {
+		nb := uint64(0)
+		if end >= start {
+			nb = end - start + 1
+		}
+		if b := nb*17 + 16; b < uint64(pageBound) {
+			pageBound = int(b)
+		}
+	}
 	for {
 		pg := realPage(w.Node, w, q, pre, tok)
 		mtok := "- -"
@@ -425,6 +513,12 @@ func (w *World) runQuery(q Q) {
 					What: fmt.Sprintf("%s: the lazy initialisation of the running event filter failed once (transient read error); "+
 						"the database is intact but %v still fails: %s", w.Name, q, pg.Bad),
 					Replay: rep()})
+			case w.CoreOnPruned && w.Pruned && pg.Err == "notfound" && agree:
+				// the database is intact; the initialiser that does not know the floor read a pruned header
+				w.Res.Violate(lib.Violation{Sig: "event-query-fails-on-pruned-database-without-prune-mode",
+					What: fmt.Sprintf("%s: a pruned database (floor %d) opened by a node without --prune-mode: the default initialiser of the running "+
+						"event filter fails on a pruned header and %v (inside the retained range) fails: %s", w.Name, w.Floor, q, pg.Bad),
+					Replay: rep()})
 			default:
 				w.Res.Violate(lib.Violation{Sig: "query-returns-error-" + pg.Err,
 					What:   fmt.Sprintf("%s page %d (token %q) of %v: %s", w.Name, pages, tok, q, pg.Bad),
@@ -452,7 +546,7 @@ func (w *World) runQuery(q Q) {
 				Replay: rep()})
 			break
 		}
-		if pages >= maxPages {
+		if pages >= pageBound {
 			fail = "too-many-pages"
 			w.Res.Violate(lib.Violation{Sig: "paging-does-not-terminate",
 				What:   fmt.Sprintf("%d pages without reaching the empty token", pages),
@@ -669,6 +763,7 @@ func (w *World) do(op Op) {
 		w.compare("prune-result", resStr(err), w.ask(fmt.Sprintf("prune %x", op.N)))
 		if err == nil && op.N > w.Floor && op.N < len(w.Chain) {
 			w.Floor = op.N
+			w.Pruned = true
 			if op.N/W > 0 {
 				w.Res.Hit("prune:drops-a-persisted-window")
 			}
@@ -679,10 +774,29 @@ func (w *World) do(op Op) {
 		w.compare("snap-result", resStr(err), w.ask("snap"))
 		w.checkState("snap")
 	case "restart":
+		if w.CoreOnPruned {
+			w.Node.Pruner, w.CoreOnPruned = w.prunerWas, false
+		}
 		w.hitRestartBranch()
 		w.Node.open()
 		w.Faulted = false
 		w.restartProbe(w.ask("restart"))
+		w.checkContents()
+	case "restartcore":
+		// the node comes back without --prune-mode: blockchain.New with its default initialiser
+		if !w.CoreOnPruned {
+			w.prunerWas = w.Node.Pruner
+		}
+		w.CoreOnPruned = true
+		w.Node.Pruner = false
+		w.Node.open()
+		w.Faulted = false
+		if w.V.DefaultInitFloorAware || !w.prunerWas {
+			w.restartProbe(w.ask("restart"))
+		} else {
+			w.restartProbe(w.ask("restartcore"))
+		}
+		w.Res.Hit("restart:pruned-database-without-prune-mode")
 	case "storefail":
 		w.failedStore(op.Plan)
 		w.checkState("storefail")
@@ -888,6 +1002,7 @@ func (w *World) startDriver(pool *DrvPool, v Variant, loadBase bool) {
 }
 
 func (w *World) close() {
+	w.checkContents()
 	if w.Drv == nil {
 		return
 	}
@@ -907,7 +1022,7 @@ func (w *World) close() {
 func (w *World) fork(name string, r *lib.RNG, id uint64, pool *DrvPool, v Variant, prunerInit bool) *World {
 	f := &World{Src: w.Src.fork(r, id), Node: w.Node.forkNode(prunerInit), Res: w.Res, Name: name,
 		Chain: append([]Plan(nil), w.Chain...), Bundles: append([]*lib.Bundle(nil), w.Bundles...),
-		Hist: append([]Op{}, w.Hist...), Floor: w.Floor}
+		Hist: append([]Op{}, w.Hist...), Floor: w.Floor, Pruned: w.Pruned}
 	f.startDriver(pool, v, true)
 	return f
 }
@@ -1036,6 +1151,7 @@ func (w *World) pruneCrash(k, j int) {
 	if floor > w.Floor && floor < len(w.Chain) {
 		w.ask(fmt.Sprintf("prune %x", floor))
 		w.Floor = floor
+		w.Pruned = true
 	}
 	if fired {
 		w.Res.Hit("fault:prune-interrupted")
